@@ -8,6 +8,8 @@ import RichchkModel.Spec.Layouts
 import RichchkModel.Generated.Codecs
 import RichchkModel.Generated.TrigTable
 import RichchkModel.Model.StrEdit
+import RichchkModel.Model.Editors
+import RichchkModel.Generated.Consts
 open Richchk
 
 def showR {α} (f : α → String) : R α → String
@@ -147,6 +149,30 @@ def opToStrx (n offs strs : String) : String :=
     "OK " ++ dumpTable t' ++ " " ++ dumpIds t'
   | _, _, _ => "bad-op"
 
+def parseEntries (s : String) : Option (List Entry) :=
+  if s = "=" then some [] else (s.splitOn ",").mapM fun e =>
+    match e.splitOn ":" with
+    | [a, b] => do let x ← a.toNat?; let y ← b.toNat?; pure (x, y)
+    | _ => none
+def parseItems (s : String) : Option (List Item) :=
+  if s = "=" then some [] else (s.splitOn ",").mapM fun e =>
+    match e.splitOn ":" with
+    | [a, b] => do
+      let y ← b.toNat?
+      if a = "-" then pure (none, y) else do let x ← a.toNat?; pure (some x, y)
+    | _ => none
+def dumpEntries (es : List Entry) : String :=
+  "[" ++ ",".intercalate (es.map fun e => toString e.1 ++ ":" ++ toString e.2) ++ "]"
+
+/-- alloc <mrgn|uprp|wav|swnm> <table> <batch> -/
+def opAlloc (kind table batch : String) : String :=
+  match kind, parseEntries table, parseItems batch with
+  | "mrgn", some t, some b => showR dumpEntries (mrgnAdd Generated.mrgnCfg t b)
+  | "uprp", some t, some b => showR dumpEntries (uprpAdd Generated.uprpCfg t b)
+  | "wav", some t, some b => showR dumpEntries (wavAdd Generated.wavCfg t (b.map (·.2)))
+  | "swnm", some _, some b => showR dumpEntries (swnmRebuild Generated.swnmCfg b)
+  | _, _, _ => "bad-op"
+
 def opTrigRow (kind idStr : String) : String :=
   match idStr.toNat? with
   | some n =>
@@ -166,6 +192,7 @@ def step (line : String) : String :=
   | ["spec-layouts"] => jsonTable Spec.specTable
   | ["flags", nm, n] => opFlags nm n
   | ["trigrow", k, n] => opTrigRow k n
+  | ["alloc", k, t, b] => opAlloc k t b
   | ["addstr", w, n, o, st, rq] => opAddStr w n o st rq
   | ["tostrx", n, o, st] => opToStrx n o st
   | ["trigids", k] => toString ((if k = "a" then Generated.actionTable else Generated.conditionTable).map (·.id))
